@@ -93,6 +93,14 @@ def check_sd(H, b, ctx, replay):
             problems.append("resolved cycle changes flags")
     except Exception as exc:
         problems.append(f"resolved cycle raised {exc!r}")
+    # the relay's cycle: the decoded header is sent on through the same assign + build helper every outgoing message goes through,
+    # without resolving it first - for entries that already carry their indexes the assignment is a no-op
+    try:
+        ctx.count("sd_relay_cycles")
+        if bytes(v.assign_option_indexes().build()) != b2:
+            problems.append("assigning option indexes on the decoded (index-carrying) header changes what it encodes to")
+    except Exception as exc:
+        problems.append(f"relay cycle raised {exc!r}")
     # independent reading: kept information survives unchanged
     nontrivial = b2 != consumed
     try:
